@@ -93,6 +93,7 @@ static void child_run(void *ud) {
   if (skipped) { sim_shared->aux[1] = 1; return; }
   if (is_mp && href != href2 && !control) flag(OV_MP_VS_MUL, "mzd_(add)mul_mp run sequentially and the sequential build's mzd_(add)mul disagree");
   L_omp->m4ri_mmc_cleanup(); L_seq->m4ri_mmc_cleanup();
+  sim_shared->aux[5] = 1; /* phase marker: the sequential reference completed; a crash from here on happens only with a team */
   size_t live0 = heap_live_count();
   uint64_t dig0 = heap_live_digest();
 
@@ -239,6 +240,7 @@ static const char *classify(const child_res_t *cr) {
   if (sim_shared->aux[1]) return "SKIPPED";
   if (g_control && (cr->fate != FATE_EXIT0 || sim_shared->aux[6])) return "ok"; /* a runtime without mutual exclusion may crash or hang the library: not a finding */
   if (sim_shared->aux[6]) return ov_names[OV_LIVENESS];
+  if (cr->fate != FATE_EXIT0 && sim_shared->aux[5]) { static char b[80]; snprintf(b, sizeof b, "team_run_%s_where_sequential_run_completed", fate_names[cr->fate]); return b; } /* C16: some team size / schedule does not give the sequential outcome */
   if (cr->fate != FATE_EXIT0) { static char b[64]; snprintf(b, sizeof b, "faultfree_%s", fate_names[cr->fate]); return b; }
   if (!sim_shared->completed) return "incomplete";
   return ov_names[sim_shared->aux[3]];
